@@ -1,4 +1,308 @@
 import PyxisVerif.Spec.C15
+import PyxisVerif.Lemmas.C14
 /-! helper lemmas for C15 -/
 namespace PyxisVerif.C15
+open Gen
+open PyxisVerif.C14 (foldlM_cons_ok cast_ne_ok)
+
+/-! ## the last written integer attribute and `usize::try_from` -/
+
+/-- the step of `declInt` -/
+def declStep (name : String) (acc : Option Int) (a : G.Attr) : Option Int :=
+  match a with | .fn n [.int v] => if n = name then some v else acc | _ => acc
+
+theorem declInt_eq (name : String) (attrs : List G.Attr) :
+    declInt name attrs = attrs.foldl (declStep name) none := rfl
+
+/-- `o` is the `usize` conversion of the declared integer `ai` -/
+def Rel (o : Option Nat) (ai : Option Int) : Prop :=
+  match ai with
+  | some a => 0 ≤ a ∧ o = some a.toNat
+  | none => o = none
+
+theorem declStep_hit (name : String) (acc : Option Int) (v : Int) :
+    declStep name acc (.fn name [.int v]) = some v := by
+  simp [declStep]
+
+theorem declStep_miss (name : String) (acc : Option Int) (a : G.Attr)
+    (h : ∀ v, a = .fn name [.int v] → False) : declStep name acc a = acc := by
+  unfold declStep
+  split
+  · next n v =>
+    split
+    · next hn => subst hn; exact (h v rfl).elim
+    · rfl
+  · rfl
+
+theorem tryUsize_some (v : Int) (n : Nat) (h : tryUsize v = some n) : 0 ≤ v ∧ n = v.toNat := by
+  unfold tryUsize at h
+  split at h
+  · next hv => simp only [Option.some.injEq] at h; exact ⟨hv, h.symm⟩
+  · cases h
+
+/-- fold invariant: if every successful step keeps `Rel` between the projected field and the declared
+    value, so does the whole loop -/
+theorem foldlM_rel {σ} (proj : σ → Option Nat) (f : σ → G.Attr → Res σ) (name : String)
+    (hstep : ∀ st a st' ai, Rel (proj st) ai → f st a = .ok st' → Rel (proj st') (declStep name ai a))
+    (attrs : List G.Attr) (st st' : σ) (ai : Option Int) (hr : Rel (proj st) ai)
+    (h : Res.foldlM f st attrs = .ok st') : Rel (proj st') (attrs.foldl (declStep name) ai) := by
+  induction attrs generalizing st ai with
+  | nil =>
+    simp only [Res.foldlM, Res.ok.injEq] at h
+    subst h; exact hr
+  | cons a as ih =>
+    obtain ⟨st1, h1, h2⟩ := foldlM_cons_ok f st st' a as h
+    exact ih st1 _ (hstep st a st1 ai hr h1) h2
+
+theorem rel_none : Rel none none := rfl
+
+theorem rel_set (v : Int) (n : Nat) (h : tryUsize v = some n) : Rel (some n) (some v) := by
+  obtain ⟨h0, hn⟩ := tryUsize_some v n h
+  exact ⟨h0, by rw [hn]⟩
+
+theorem typeAttrStep_rel (st : TypeAttrs) (a : G.Attr) (st' : TypeAttrs) (ai : Option Int)
+    (hr : Rel st.singleton ai) (h : typeAttrStep st a = .ok st') :
+    Rel st'.singleton (declStep "singleton" ai a) := by
+  unfold typeAttrStep at h
+  split at h
+  · split at h
+    · cases h; rw [declStep_miss _ _ _ (by intro v hv; simp at hv)]; exact hr
+    · cases h
+  · next v =>
+    split at h
+    · next n hn => cases h; rw [declStep_hit]; exact rel_set v n hn
+    · cases h
+  · split at h
+    · cases h; rw [declStep_miss _ _ _ (by intro v hv; simp at hv)]; exact hr
+    · cases h
+  · cases h; rw [declStep_miss _ _ _ (by intro v hv; simp at hv)]; exact hr
+  · cases h; rw [declStep_miss _ _ _ (by intro v hv; simp at hv)]; exact hr
+  · cases h; rw [declStep_miss _ _ _ (by intro v hv; simp at hv)]; exact hr
+  · cases h; rw [declStep_miss _ _ _ (by intro v hv; simp at hv)]; exact hr
+  · next _ hs _ _ _ _ _ =>
+    cases h; rw [declStep_miss _ _ _ (fun v hv => hs v hv)]; exact hr
+
+theorem enumAttrStep_rel (st : EnumAttrs) (a : G.Attr) (st' : EnumAttrs) (ai : Option Int)
+    (hr : Rel st.singleton ai) (h : enumAttrStep st a = .ok st') :
+    Rel st'.singleton (declStep "singleton" ai a) := by
+  unfold enumAttrStep at h
+  split at h
+  · cases h; rw [declStep_miss _ _ _ (by intro v hv; simp at hv)]; exact hr
+  · cases h; rw [declStep_miss _ _ _ (by intro v hv; simp at hv)]; exact hr
+  · cases h; rw [declStep_miss _ _ _ (by intro v hv; simp at hv)]; exact hr
+  · next v =>
+    split at h
+    · next n hn => cases h; rw [declStep_hit]; exact rel_set v n hn
+    · cases h
+  · next _ _ _ hs =>
+    cases h; rw [declStep_miss _ _ _ (fun v hv => hs v hv)]; exact hr
+
+theorem rel_result (o : Option Nat) (name : String) (attrs : List G.Attr)
+    (h : Rel o (attrs.foldl (declStep name) none)) :
+    (match declInt name attrs with
+     | some a => 0 ≤ a ∧ o = some a.toNat
+     | none => o = none) := by
+  rw [declInt_eq]; exact h
+
+theorem type_singleton_main (attrs : List G.Attr) (ta : TypeAttrs) (h : Res.foldlM typeAttrStep {} attrs = .ok ta) :
+    (match declInt "singleton" attrs with
+     | some a => 0 ≤ a ∧ ta.singleton = some a.toNat
+     | none => ta.singleton = none) :=
+  rel_result _ _ _ (foldlM_rel (fun (t : TypeAttrs) => t.singleton) typeAttrStep "singleton" typeAttrStep_rel attrs {} ta none rel_none h)
+
+theorem enum_singleton_main (attrs : List G.Attr) (ea : EnumAttrs) (h : Res.foldlM enumAttrStep {} attrs = .ok ea) :
+    (match declInt "singleton" attrs with
+     | some a => 0 ≤ a ∧ ea.singleton = some a.toNat
+     | none => ea.singleton = none) :=
+  rel_result _ _ _ (foldlM_rel (fun (t : EnumAttrs) => t.singleton) enumAttrStep "singleton" enumAttrStep_rel attrs {} ea none rel_none h)
+
+/-! ## extern values -/
+
+/-- the step of `xvalAddress` -/
+def xaddrStep (acc : Option Nat) (a : G.Attr) : Res (Option Nat) :=
+  match a with
+  | .fn "address" [.int v] => match tryUsize v with
+    | some n => .ok (some n)
+    | none => .err "failed to convert `address` attribute into usize for extern value"
+  | _ => .ok acc
+
+theorem xvalAddress_eq (attrs : List G.Attr) : xvalAddress attrs = Res.foldlM xaddrStep none attrs := rfl
+
+theorem xaddrStep_rel (st : Option Nat) (a : G.Attr) (st' : Option Nat) (ai : Option Int)
+    (hr : Rel st ai) (h : xaddrStep st a = .ok st') : Rel st' (declStep "address" ai a) := by
+  unfold xaddrStep at h
+  split at h
+  · next v =>
+    split at h
+    · next n hn => cases h; rw [declStep_hit]; exact rel_set v n hn
+    · cases h
+  · next hs =>
+    cases h; rw [declStep_miss _ _ _ (fun v hv => hs v hv)]; exact hr
+
+theorem xvalAddress_rel (attrs : List G.Attr) (o : Option Nat) (h : xvalAddress attrs = .ok o) :
+    Rel o (declInt "address" attrs) := by
+  rw [declInt_eq]
+  exact foldlM_rel id xaddrStep "address" xaddrStep_rel attrs none o none rel_none h
+
+/-- `collect::<Result<Vec<_>>>()` is pointwise and keeps the length -/
+theorem mapM'_ok {α β} (f : α → Res β) (l : List α) (l' : List β) (h : Res.mapM' f l = .ok l') :
+    l'.length = l.length ∧ ∀ k (hk : k < l.length) (hk' : k < l'.length), f l[k] = .ok l'[k] := by
+  induction l generalizing l' with
+  | nil =>
+    simp only [Res.mapM', Res.ok.injEq] at h
+    subst h; exact ⟨rfl, fun k hk => by simp at hk⟩
+  | cons a as ih =>
+    unfold Res.mapM' at h
+    split at h
+    · next b hb =>
+      split at h
+      · next bs hbs =>
+        simp only [Res.ok.injEq] at h
+        subst h
+        obtain ⟨ih1, ih2⟩ := ih bs hbs
+        refine ⟨by simp [ih1], ?_⟩
+        intro k hk hk'
+        cases k with
+        | zero => simpa using hb
+        | succ k =>
+          simp only [List.getElem_cons_succ]
+          exact ih2 k _ _
+      · cases h
+      · cases h
+      · cases h
+    · cases h
+    · cases h
+    · cases h
+
+open PyxisVerif.C14 in
+theorem xvalStep_ok (ev : G.XVal) (x : XValue) (h : xvalStep ev = .ok x) :
+    ∃ a : Int, declInt "address" ev.attrs = some a ∧ 0 ≤ a ∧ x.addr = a.toNat
+      ∧ x.name = ev.name ∧ x.vis = ev.vis ∧ x.gty = ev.ty := by
+  unfold xvalStep at h
+  split at h
+  · cases h
+  · next n hn =>
+    simp only [Res.ok.injEq] at h
+    subst h
+    have hr := xvalAddress_rel _ _ hn
+    unfold Rel at hr
+    split at hr
+    · next a ha => exact ⟨a, ha, hr.1, by simpa using hr.2, rfl, rfl, rfl⟩
+    · cases hr
+  · exact (cast_ne_ok _ _ h).elim
+
+open PyxisVerif.C14 in
+theorem extern_value_address_main (s s' : State) (m : G.Module) (path : Path) (h : s.addModule m path = .ok s') :
+    ∃ md, s'.getModule path = some md ∧ md.xvals.length = m.xvals.length ∧
+      ∀ k (hk : k < m.xvals.length) (hk' : k < md.xvals.length),
+        ∃ a : Int, declInt "address" m.xvals[k].attrs = some a ∧ 0 ≤ a ∧ md.xvals[k].addr = a.toNat
+          ∧ md.xvals[k].name = m.xvals[k].name ∧ md.xvals[k].vis = m.xvals[k].vis ∧ md.xvals[k].gty = m.xvals[k].ty := by
+  obtain ⟨xvals, doc, s2, hx, h1, h2⟩ := addModule_inv s s' m path h
+  obtain ⟨_, _, _, g1⟩ := fold_addItem (defStep path) path (·.name) (defStep_spec path) _ _ _ h1
+  obtain ⟨_, _, _, g2⟩ := fold_addItem (xtypeStep path) path (·.1) (xtypeStep_spec path) _ _ _ h2
+  have h0 : (s.putModule path (newMod m path xvals doc)).getModule path = some (newMod m path xvals doc) := by
+    simp [State.putModule, State.getModule]
+  obtain ⟨dp1, hd1⟩ := g1 _ _ h0
+  obtain ⟨dp2, hd2⟩ := g2 _ _ hd1
+  obtain ⟨hl, hp⟩ := mapM'_ok _ _ _ hx
+  refine ⟨_, hd2, hl, ?_⟩
+  intro k hk hk'
+  exact xvalStep_ok _ _ (hp k hk hk')
+
+open PyxisVerif.C14 in
+theorem extern_without_address_main (s : State) (m : G.Module) (path : Path)
+    (h : ∃ x ∈ m.xvals, declInt "address" x.attrs = none ∨ ∃ a, declInt "address" x.attrs = some a ∧ a < 0) :
+    (s.addModule m path).isOk = false := by
+  cases hr : s.addModule m path with
+  | ok s' =>
+    obtain ⟨md, _, hl, hp⟩ := extern_value_address_main s s' m path hr
+    obtain ⟨x, hx, hd⟩ := h
+    obtain ⟨k, hk, rfl⟩ := List.getElem_of_mem hx
+    obtain ⟨a, ha, h0, _⟩ := hp k hk (by omega)
+    rcases hd with hd | ⟨a', ha', hn⟩
+    · rw [ha] at hd; cases hd
+    · rw [ha] at ha'; cases ha'; omega
+  | _ => rfl
+
+theorem extern_value_type_main (reg : Registry) (m m' : Mod) (h : resolveXVals reg m = .ok m') :
+    m'.xvals.length = m.xvals.length ∧
+    ∀ k (hk : k < m.xvals.length) (hk' : k < m'.xvals.length),
+      ∃ t, reg.resolveTy m.scope m.xvals[k].gty = .ok t ∧ m'.xvals[k].ty = some t ∧ m'.xvals[k].addr = m.xvals[k].addr
+        ∧ m'.xvals[k].name = m.xvals[k].name ∧ m'.xvals[k].vis = m.xvals[k].vis := by
+  unfold resolveXVals at h
+  split at h
+  · next xvals hx =>
+    simp only [Res.ok.injEq] at h
+    subst h
+    obtain ⟨hl, hp⟩ := mapM'_ok _ _ _ hx
+    refine ⟨hl, ?_⟩
+    intro k hk hk'
+    have := hp k hk hk'
+    simp only at this hk' ⊢
+    split at this
+    · next t ht =>
+      simp only [Res.ok.injEq] at this
+      refine ⟨t, ht, ?_⟩
+      rw [← this]
+      exact ⟨rfl, rfl, rfl, rfl⟩
+    · cases this
+    · exact (cast_ne_ok _ _ this).elim
+  · exact (cast_ne_ok _ _ h).elim
+
+/-! ## emitted getters -/
+
+theorem struct_getter_main (reg : Registry) (path : Path) (size align : Nat) (vis : Vis) (td : TypeDefn) (a : Nat)
+    (h : td.singleton = some a) :
+    Sexp.mk "singleton-struct" [.str (path.getLast?.getD ""), Emit.visS vis, .int a] ∈ Emit.typeItems reg path size align vis td := by
+  unfold Emit.typeItems
+  simp only [h]
+  simp only [List.mem_append]
+  exact Or.inl (Or.inl (Or.inl (Or.inr (List.mem_singleton.mpr rfl))))
+
+theorem enum_getter_main (path : Path) (size : Nat) (vis : Vis) (ed : EnumDefn) (a : Nat) (h : ed.singleton = some a) :
+    Sexp.mk "singleton-enum" [.str (path.getLast?.getD ""), Emit.visS vis, .int a] ∈ Emit.enumItems path size vis ed := by
+  unfold Emit.enumItems
+  simp only [h]
+  simp only [List.mem_append]
+  exact Or.inr (List.mem_singleton.mpr rfl)
+
+theorem getter_semantics_main (mem : Mem) (a : Nat) :
+    (execSingletonStruct mem a = none ↔ mem a = 0) ∧ (∀ p, execSingletonStruct mem a = some p → p = mem a ∧ p ≠ 0)
+    ∧ execSingletonEnum mem a = mem a ∧ execExternValue a = a := by
+  unfold execSingletonStruct execSingletonEnum execExternValue
+  refine ⟨?_, ?_, rfl, rfl⟩
+  · split <;> simp_all
+  · intro p hp
+    split at hp
+    · cases hp
+    · next hne => cases hp; exact ⟨rfl, hne⟩
+
+theorem head_mk (t : String) (xs : List Sexp) : Sexp.head? (Sexp.mk t xs) = some t := rfl
+
+theorem no_getter_main (reg : Registry) (path : Path) (size align : Nat) (vis : Vis) (td : TypeDefn)
+    (h : td.singleton = none) :
+    ∀ x ∈ Emit.typeItems reg path size align vis td, Sexp.head? x ≠ some "singleton-struct" := by
+  intro x hx
+  unfold Emit.typeItems at hx
+  simp only [h, List.append_nil, List.mem_append, List.mem_singleton, List.mem_flatMap] at hx
+  rcases hx with ((((hx | hx) | hx) | hx) | hx)
+  · subst hx; rw [head_mk]; decide
+  · split at hx
+    · rw [List.mem_singleton] at hx; subst hx; rw [head_mk]; decide
+    · cases hx
+  · subst hx; rw [head_mk]; decide
+  · obtain ⟨e, _, hx⟩ := hx
+    split at hx
+    · rw [List.mem_singleton] at hx; subst hx; rw [head_mk]; decide
+    · simp only [List.mem_cons, List.not_mem_nil, or_false] at hx
+      rcases hx with hx | hx <;> (subst hx; rw [head_mk]; decide)
+  · simp only [List.mem_cons, List.not_mem_nil, or_false] at hx
+    rcases hx with hx | hx <;> (subst hx; rw [head_mk]; decide)
+
+theorem extern_accessor_main (x : XValue) (t : DTy) (h : x.ty = some t) :
+    Emit.xvalItem x = Sexp.mk "xaccessor" [Emit.visS x.vis, .str ("get_" ++ x.name), .str (Emit.tyStr t), .int x.addr] := by
+  unfold Emit.xvalItem
+  rw [h]
+  rfl
+
 end PyxisVerif.C15
